@@ -106,6 +106,7 @@ func (server *Server) Start() error {
 	if err != nil {
 		return err
 	}
+	verifPoint("start.opened")
 
 	if server.IsPortEnabled() {
 		go server.serve(server.portListener)
@@ -124,10 +125,12 @@ func (server *Server) Stop() error {
 	if err := server.close(); err != nil {
 		return err
 	}
+	verifPoint("stop.between")
 
 	if err := server.ConnManager.Stop(); err != nil {
 		return err
 	}
+	verifPoint("stop.return")
 
 	if server.IsPortEnabled() {
 		addr := net.JoinHostPort(server.Addr, strconv.Itoa(server.ConfigPort()))
@@ -208,6 +211,7 @@ func (server *Server) close() error {
 
 // serve handles client connections of the specified listener.
 func (server *Server) serve(l net.Listener) error {
+	verifPoint("serve.enter")
 	if l != nil {
 		// Closes only the listener of this loop; a restarted server has new ones.
 		defer l.Close()
@@ -219,6 +223,7 @@ func (server *Server) serve(l net.Listener) error {
 		}
 		conn, err := l.Accept()
 		if err != nil {
+			verifPoint("serve.accept-error")
 			return err
 		}
 
@@ -283,8 +288,10 @@ func (server *Server) receive(conn net.Conn, tlsState *tls.ConnectionState) erro
 	}
 
 	server.AddConn(handlerConn)
+	verifPoint("conn.registered")
 	defer func() {
 		server.RemoveConn(handlerConn)
+		verifPoint("conn.deregistered")
 	}()
 
 	log.Debugf("%s/%s (%s) accepted", PackageName, Version, conn.RemoteAddr().String())
